@@ -82,8 +82,8 @@ impl Property for C15 {
     }
     fn cases(&self, tier: Tier) -> u64 {
         match tier {
-            Tier::Quick => 300000,
-            Tier::Thorough => 5000000,
+            Tier::Quick => 3_000_000,
+            Tier::Thorough => 50_000_000,
         }
     }
     fn decode(&mut self, tape: &TapeVal) -> Case {
